@@ -584,7 +584,7 @@ def run_case(seed, kind=None, profile=None, mode=None, nops=None):
     H.falsy_items = rng.random() < 0.125
     W = weights(profile)
     rng2 = random.Random(seed ^ 0x5EED)      # decisions added later draw from their own stream (older histories stay what they were)
-    H.forgetful = rng2.random() < 0.3
+    H.forgetful = rng2.random() < mode.get("forgetful", 0.3)
     T.sh.forget_items = H.forgetful and not mode.get("illformed")
     for c in range(ncl):
         env.process(client(env, T, c, random.Random(rng.random()), nops, W, H, mode, mon, other))
